@@ -1473,6 +1473,144 @@ theorem watchCancel_exact (st : St) (a : Nat) (hok : st.status = .ok) (hl : st.l
   · rw [lists_free]; exact hn_list
   · rw [St.log_free]; exact hn_log
 
+/-! ### 6b. order for the timer loop as shipped -/
+
+theorem succOf_rel {R : Nat → Nat → Prop} (a b : Nat) : ∀ l : List Nat, l.Pairwise R → succOf a l = some b → R a b := by
+  intro l
+  induction l with
+  | nil => intro _ h; simp [succOf] at h
+  | cons x rest ih =>
+    intro hp h
+    rw [List.pairwise_cons] at hp
+    simp only [succOf] at h
+    split at h
+    · rename_i hx
+      subst hx
+      cases rest with
+      | nil => simp at h
+      | cons y ys =>
+        simp only [List.head?_cons, Option.some.injEq] at h
+        subst h
+        exact hp.1 y List.mem_cons_self
+    · exact ih hp.2 h
+
+theorem succOf_mem (a b : Nat) : ∀ l : List Nat, succOf a l = some b → b ∈ l := by
+  intro l
+  induction l with
+  | nil => intro h; simp [succOf] at h
+  | cons x rest ih =>
+    intro h
+    simp only [succOf] at h
+    split at h
+    · cases rest with
+      | nil => simp at h
+      | cons y ys =>
+        simp only [List.head?_cons, Option.some.injEq] at h
+        subst h
+        exact List.mem_cons_of_mem _ List.mem_cons_self
+    · exact List.mem_cons_of_mem _ (ih h)
+
+/-- `(d, a)` is not after `f` in key order. -/
+def keyLe (d : TV) (a : Nat) (f : Fired) : Prop :=
+  (f.a = a ∧ f.due = d) ∨ (f.due.gt d = true ∨ (d = f.due ∧ a < f.a))
+
+theorem lt_of_key_lt_le {x f : Fired} {d : TV} {b : Nat}
+    (h1 : d.gt x.due = true ∨ (x.due = d ∧ x.a < b)) (h2 : keyLe d b f) : Fired.lt x f := by
+  unfold Fired.lt
+  cases h2 with
+  | inl h => rw [h.1, h.2]; exact h1
+  | inr h =>
+    cases h with
+    | inl hgt =>
+      cases h1 with
+      | inl h1 => exact Or.inl (TV.gt_trans hgt h1)
+      | inr h1 => rw [h1.1]; exact Or.inl hgt
+    | inr heq =>
+      cases h1 with
+      | inl h1 => rw [← heq.1]; exact Or.inl h1
+      | inr h1 => exact Or.inr ⟨h1.1.trans heq.1, Nat.lt_trans h1.2 heq.2⟩
+
+theorem lists_free_timers (st : St) (a : Nat) : (st.free a).timers = st.timers := (grow_free st a).timers
+
+/-- `tickit_evloop_invoke_timers` as shipped: the timers one run invokes are strictly increasing in
+    (deadline, registration), whatever the callbacks register or cancel. -/
+theorem timerLoopT_ordered (fuel : Nat) : ∀ (st : St) (now : TV) (this : Option Nat), QInv st →
+    (∀ b, this = some b → b ∈ st.timers) →
+    (timerLoopT fuel st now this).2.2.Pairwise Fired.lt ∧
+    ∀ f ∈ (timerLoopT fuel st now this).2.2, ∀ b, this = some b → keyLe (dueOf st b) b f := by
+  induction fuel with
+  | zero => intro st now this _ _; simp [timerLoopT]
+  | succ n ih =>
+    intro st now this q hin
+    unfold timerLoopT
+    split
+    · simp
+    · split
+      · simp
+      · rename_i a
+        have ha : a ∈ st.timers := hin a rfl
+        split
+        · simp
+        · split
+          · simp
+          · simp only []
+            have hsingle : ∀ f ∈ [(⟨a, (st.getW a).slot, (st.getW a).due⟩ : Fired)], ∀ b, some a = some b → keyLe (dueOf st b) b f := by
+              intro f hf b hb
+              simp only [List.mem_singleton] at hf
+              simp only [Option.some.injEq] at hb
+              subst hf hb
+              exact Or.inl ⟨rfl, rfl⟩
+            split
+            · exact ⟨List.pairwise_singleton _ _, hsingle⟩
+            · split
+              · exact ⟨List.pairwise_singleton _ _, hsingle⟩
+              · have p1 := pres_fireUser st (st.getW a).slot (EV_FIRE ||| EV_UNBIND) .none
+                generalize fireUser st (st.getW a).slot (EV_FIRE ||| EV_UNBIND) .none = st1 at p1 ⊢
+                have q1 : QInv st1 := p1.qinv q
+                have p2 := (grow_free st1 a).pres
+                have q2 : QInv (st1.free a) := p2.qinv q1
+                have hin2 : ∀ b, succOf a st1.timers = some b → b ∈ (st1.free a).timers := by
+                  intro b hb; rw [lists_free_timers]; exact succOf_mem a b _ hb
+                obtain ⟨hP, hK⟩ := ih (st1.free a) now (succOf a st1.timers) q2 hin2
+                -- the first invoked timer is before everything the rest of the run invokes
+                have hfirst : ∀ f ∈ (timerLoopT n (st1.free a) now (succOf a st1.timers)).2.2,
+                    Fired.lt ⟨a, (st.getW a).slot, (st.getW a).due⟩ f := by
+                  intro f hf
+                  cases hs : succOf a st1.timers with
+                  | none =>
+                    rw [hs] at hf
+                    cases n with
+                    | zero => simp [timerLoopT] at hf
+                    | succ m =>
+                      unfold timerLoopT at hf
+                      split at hf
+                      · cases hf
+                      · cases hf
+                  | some b =>
+                    have hk := hK f hf b hs
+                    have hrel : keyLt st1 a b := succOf_rel a b _ q1.ordered hs
+                    have hb1 : b < st1.heap.length := q1.alloc b (succOf_mem a b _ hs)
+                    have hd_b : dueOf (st1.free a) b = dueOf st1 b := p2.ext.due b hb1
+                    have hd_a : dueOf st1 a = dueOf st a := p1.ext.due a (q.alloc a ha)
+                    rw [hd_b] at hk
+                    apply lt_of_key_lt_le (d := dueOf st1 b) (b := b) _ hk
+                    unfold keyLt at hrel
+                    rw [hd_a] at hrel
+                    exact hrel
+                refine ⟨?_, ?_⟩
+                · rw [List.pairwise_cons]
+                  exact ⟨hfirst, hP⟩
+                · intro f hf b hb
+                  simp only [Option.some.injEq] at hb
+                  subst hb
+                  simp only [List.mem_cons] at hf
+                  cases hf with
+                  | inl h => subst h; exact Or.inl ⟨rfl, rfl⟩
+                  | inr h =>
+                    have := hfirst f h
+                    unfold Fired.lt at this
+                    exact Or.inr this
+
 /-! ### 7. C18: the wait, errno, poll slots -/
 
 theorem cfg_raiseSig (st : St) (s : Int) : (raiseSig st s).cfg = st.cfg := by
